@@ -289,3 +289,80 @@ def foreach_rule(ctx, rule, funcs, why):
                       f'the loop {what} for each item but can be left early ({", ".join(type(x).__name__.lower() + " at line " + str(x.lineno) for x in exits)}): '
                       f'the remaining items are skipped: {why}')
     return n
+
+
+def compare_pairs_rule(ctx, rule, why):
+    """compare_reqs decides that two requests are the same request: every comparison in it compares the SAME attribute of its
+    two request parameters (req1.x == req2.x, possibly under the same wrapper on both sides)"""
+    repo = ctx.repo
+    f = repo.func('gnpy.topology.request', 'compare_reqs')
+    a, b = f.params[0], f.params[1]
+    n = 0
+
+    def attr_of(e):
+        """(request parameter, attribute path) behind an operand: req.x, set(req.x), req.x[..]"""
+        while isinstance(e, ast.Call) and len(e.args) == 1 and not e.keywords:
+            e = e.args[0]
+        parts = []
+        while isinstance(e, (ast.Attribute, ast.Subscript)):
+            if isinstance(e, ast.Attribute):
+                parts.append(e.attr)
+            e = e.value
+        if isinstance(e, ast.Name) and e.id in (a, b) and parts:
+            return e.id, '.'.join(reversed(parts))
+        return None
+    for c in [x for x in ast.walk(f.node) if isinstance(x, ast.Compare) and len(x.ops) == 1 and isinstance(x.ops[0], (ast.Eq, ast.NotEq))]:
+        le, ri = attr_of(c.left), attr_of(c.comparators[0])
+        if le is None and ri is None:
+            continue
+        n += 1
+        ok = le is not None and ri is not None and {le[0], ri[0]} == {a, b} and le[1] == ri[1]
+        ctx.check(rule, f'{site(f, c)} {ast.unparse(c)[:50]}', ok, f'{f.qual}|pair|{ast.unparse(c)[:60]}',
+                  f'compare_reqs compares {ast.unparse(c.left)[:40]} with {ast.unparse(c.comparators[0])[:40]}: not the same attribute of the '
+                  f'two requests: {why}')
+    return n
+
+
+def first_reason_rule(ctx, rule, why):
+    """in compute_path_with_disjunction a blocking reason that is already set (by an earlier store or by a callee that writes
+    blocking_reason on the request, per its effect summary) is never overwritten: a later store is guarded by
+    `not hasattr(<request>, 'blocking_reason')`"""
+    from ..cfg import CFG
+    from ..effects import all_effects
+    repo = ctx.repo
+    f = repo.func('gnpy.topology.request', 'compute_path_with_disjunction')
+    eff = all_effects(repo)
+    g = CFG(f.node)
+    stores = [(st, t) for st, t, v in attr_stores(f, 'blocking_reason')]
+    setters = []            # (cfg node, description)
+    for st, t in stores:
+        setters.append((g.node_of(st), f'store at line {st.lineno}', st))
+    for c in [x for x in walk_no_nested(f.node) if isinstance(x, ast.Call)]:
+        callee = repo.resolve_call(f, c)
+        if isinstance(callee, Func) and callee.qual in eff:
+            for i, a in enumerate(c.args):
+                w = eff[callee.qual].param_writes.get(i) or set()
+                if 'blocking_reason' in w:
+                    st = stmt_of(f, c)
+                    setters.append((g.node_of(st), f'{callee.name}(..) at line {c.lineno}', st))
+    n = 0
+    for st, t in stores:
+        node = g.node_of(st)
+        obj = ast.unparse(t.value)
+        earlier = [d for nd, d, s2 in setters if nd is not None and s2 is not st and node.id in g.reachable_from(nd.id) and
+                   not (s2.lineno > st.lineno and enclosing(s2, (ast.For, ast.While)) is None)]
+        # loop back edges make everything reachable: only count setters of the same iteration that come first in program order
+        earlier = [d for (nd, d, s2) in setters if nd is not None and s2 is not st and s2.lineno < st.lineno and node.id in g.reachable_from(nd.id)]
+        guard = None
+        cur = getattr(st, '_parent', None)
+        while cur is not None and cur is not f.node:
+            if isinstance(cur, ast.If):
+                t_ = ast.unparse(cur.test).replace(' ', '')
+                in_body = any(st is x for s_ in cur.body for x in ast.walk(s_))
+                if (t_ == f"nothasattr({obj},'blocking_reason')" and in_body) or (t_ == f"hasattr({obj},'blocking_reason')" and not in_body):
+                    guard = cur
+            cur = getattr(cur, '_parent', None)
+        n += 1
+        ctx.check(rule, f'{site(f, st)} {ast.unparse(st)[:50]}', not earlier or guard is not None, f'{f.qual}|first-reason|{ast.unparse(st.value)[:30]}',
+                  f'{ast.unparse(st)[:60]} can overwrite a blocking reason set before ({"; ".join(earlier[:3])}) without testing that none is set: {why}')
+    return n
